@@ -45,7 +45,7 @@ func VH_C02() {
 		cfg2.MemtableByteThreshold = vf.Int("r"+string(rune('0'+c))+".memThr", 1, 120)
 		cfg2.ImmutableBuffer = 1 - cfg.ImmutableBuffer%2
 		cfg2.DataBlockByteThreshold = 41 - cfg.DataBlockByteThreshold
-		cfg2.SkipListMaxLevel = 3
+		cfg2.SkipListMaxLevel = 1 // (tower heights come from an uncontrolled random source natively; levels are C17's subject)
 		db, err = Open(dir, cfg2)
 		vf.Assert("C02.reopen", err == nil)
 		mo.check(db, "C02.reopened"+string(rune('0'+c)), keys)
@@ -74,7 +74,7 @@ func VH_C02_ManyFiles() {
 	if vf.Param("C09", 0) == 1 {
 		tg = "C09.many" // the same scenario decides C09's "handles rebuilt by recovery" clause
 	}
-	cfg := Config{SkipListMaxLevel: 2, SkipListP: 0.5, MemtableByteThreshold: 1, ImmutableBuffer: 1, DataBlockByteThreshold: 1,
+	cfg := Config{SkipListMaxLevel: 1, SkipListP: 0.5, MemtableByteThreshold: 1, ImmutableBuffer: 1, DataBlockByteThreshold: 1,
 		L0TargetNum: vf.Param("L0T", 12), LevelRatio: 10}
 	dir := vf.Dir()
 	db, err := Open(dir, cfg)
